@@ -11,7 +11,7 @@ HARNESS = ["network/dag/zz_verif_c06_test.go"]
 
 REQUIRED = ["parse_sound", "lc_exact", "lc_exact_fails_without_guard", "admitted_sound", "admitted_prevs_clock",
             "admitted_signature", "add_idempotent", "rejected_no_trace", "dag_inv", "concurrent_adds_serialise",
-            "concurrent_adds_keep_invariant", "created_tx_admissible",
+            "concurrent_adds_keep_invariant", "created_tx_admissible", "notified_exactly_once",
             "fact_allowed_algos", "fact_allowed_versions", "fact_header_names", "fact_parse_steps",
             "fact_signature_count_checked", "fact_lc_strict", "fact_jwk_public_only", "embedded_key_is_public", "fact_prev_verifier", "fact_verifier_order",
             "fact_signature_verifier", "fact_add_two_phases", "fact_root_check"]
